@@ -35,11 +35,11 @@ Fixpoint lookup {A} (x : string) (l : list (string * A)) : option A :=
   | (y, t) :: l' => if String.eqb x y then Some t else lookup x l'
   end.
 
-(* HashMap::insert; the key is never present when the code inserts (Proofs.v: wf), so cons is exact *)
+(* HashMap::insert; the key is never present when the code inserts (SubstProofs.unify_terms_wf), so cons is exact *)
 Definition bind (x : string) (t : term) (th : subst) : subst := (x, t) :: th.
 
 (* resolve_term: `fuel` bounds the length of the chain followed; out of fuel returns the term reached so far.
-   ResolveProofs.resolve_is_root: for every well-formed binding map (all maps the search builds are) the fuel
+   SubstProofs.resolve_is_root: for every well-formed binding map (all maps the search builds are) the fuel
    S (length th) is never exhausted. *)
 Fixpoint resolve_fuel (fuel : nat) (th : subst) (t : term) : term :=
   match fuel with
